@@ -43,4 +43,14 @@ MUTANTS = [
     ("dc_continuity_to_wrong_state", DC, "x_next = self.X[k + 1] if i==self.M-1 else self.Xc[k][i+1][:,0]", "x_next = self.X[k + 1] if i>=self.M-1 else self.Xc[k][i][:,0]", ["C02"]),
     ("dc_alg_at_wrong_z", DC, "res = f(x=self.Xc[k][i][:, j+1], u=self.U[k], z=self.Zc[k][i][:,j], p=p_total, t=self.tr[k][i][j])", "res = f(x=self.Xc[k][i][:, j+1], u=self.U[k], z=self.Zc[k][i][:,0], p=p_total, t=self.tr[k][i][j])", ["C02"]),
     ("dc_dt_of_first_interval", DC, "        for k in range(self.N):\n            dt = dts[k]", "        for k in range(self.N):\n            dt = dts[0]", ["C02"]),
+    # --- C06
+    ("geometric_growth_exponent", SM, "return self._growth_factor**(1.0/(N-1))", "return self._growth_factor**(1.0/N)", ["C06"]),
+    ("DT_returns_DT_control", SM, "            return integrator_grid[i+1]-integrator_grid[i]", "            return self.control_grid[1]-self.control_grid[0] if self.M==2 else integrator_grid[i+1]-integrator_grid[i]", ["C06"]),
+    ("DT_control_last_is_first", SM, "            return self.control_grid[-1]-self.control_grid[-2]", "            return self.control_grid[1]-self.control_grid[0]", ["C06"]),
+    ("uniform_localized_ratio", SM, "        return (Tnext==T,{})", "        return (Tnext==1.5*T,{})", ["C06"]),
+    ("freegrid_end_not_tied", SM, "        opti.subject_to(control_grid[-1]==tf)", "        pass", ["C06"]),
+    ("density_not_normalised", SM, "for v in list(np.linspace(0.0, 1.0, N+1)[1:-1]*I):", "for v in list(np.linspace(0.0, 1.0, N+1)[1:-1]*min(I,1.0)):", ["C06"]),
+    ("localized_t0_chain_broken", SM, "            yield (t0_local[k]+Tk==t0_local[k+1],{})", "            yield (t0_local[k]+Tk==t0_local[k+1],{}) if k<3 else (t0_local[k]+2*Tk==t0_local[k+1],{})", ["C06"]),
+    ("freegrid_max_dropped", SM, "        yield (self.min <= (T_local[k] <= self.max),{})", "        yield (self.min <= (T_local[k] <= inf),{})", ["C06"]),
+    ("function_grid_t0_dropped", SM, "    def __call__(self, t0, T, N):\n        n = self.normalized(N)\n        return t0 + hcat(n)*T\n\n    def normalized(self, N):\n        return self.normalized_fun(N)", "    def __call__(self, t0, T, N):\n        n = self.normalized(N)\n        return t0*(n[1]<0.9) + hcat(n)*T\n\n    def normalized(self, N):\n        return self.normalized_fun(N)", ["C06"]),
 ]
